@@ -33,7 +33,7 @@ def check(ctx):
     sh = model.module(SH)
     pi = sh.func("partitioning_index")
     hs = [c for c in calls(pi, "hash_object_dispatch")]
-    ok = len(hs) == 1 and const(kwarg(hs[0], "index")) is False and unparse(hs[0].args[0]) == "df"
+    ok = len(hs) == 1 and const(kwarg(hs[0], "index")) is False and eqv(hs[0].args[0], "df")
     ctx.ob("ALG.partition-function.hash", pi, "hash_object_dispatch(df, index=False): only the key values, not the row labels", ok, "" if ok else "rows with equal keys but different index labels can land in different partitions")
     ok = bool(find("res = hash_object_dispatch(df, index=False) % int(npartitions)", pi))
     ctx.ob("ALG.partition-function.modulo", pi, "partition = hash % npartitions", ok)
@@ -80,7 +80,7 @@ def check(ctx):
     cd = ctx.model.module("dask/dataframe/dask_expr/_shuffle.py").func("_calculate_divisions")
     ps = find("presorted = M_v", cd)
     conj = [v for n_, b in ps for v in (b["M_v"].values if isinstance(b["M_v"], ast.BoolOp) else [b["M_v"]])]
-    strict = [v for v in conj if unparse(v) == "(maxes2 < mins2).all()"]
+    strict = [v for v in conj if eqv(v, "(maxes2 < mins2).all()")]
     ok = len(strict) == 1 and any(const(b["M_v"]) is False for n_, b in ps)
     ctx.ob("ORD.presorted-strict", cd, "presorted requires (maxes2 < mins2).all(): a key shared by two neighbouring partitions forces a shuffle", ok, "" if ok else "equality at a partition boundary is accepted: the same key ends up in two output partitions although the divisions promise one")
     ok = bool(find("maxes2 = (maxes.iloc[:n - 1] if ascending else maxes.iloc[1:]).reset_index(drop=True)", cd)) and bool(find("mins2 = (mins.iloc[1:] if ascending else mins.iloc[:n - 1]).reset_index(drop=True)", cd))
